@@ -342,6 +342,31 @@ def h_sum(B, cfg):
     B.eq("sum: metric == block Fisher + prior", flat_of(lin.metric(dxf)), [t for k in keys for t in want[k]])
 
 
+def h_nested(B, grouping):
+    """sums of likelihood energies in every grouping equal the sum of the individual terms (value, Jacobian, metric)"""
+    da = ift.DomainTuple.make(U(N))
+    dats = [B.reals(f"dat{i}", (N,)) for i in range(4)]
+    terms = [ift.GaussianEnergy(field_of(da, dats[0])) @ ift.ducktape(da, None, "a"),
+             ift.GaussianEnergy(field_of(da, dats[1])) @ ift.ducktape(da, None, "a").exp(),
+             ift.PoissonianEnergy(ift.makeField(da, np.array([1, 2]))) @ ift.ducktape(da, None, "a").exp(),
+             ift.GaussianEnergy(field_of(da, dats[3])) @ (2. * ift.ducktape(da, None, "a"))]
+    a, b, c, d = terms
+    lh = {"(a+b)+c": lambda: (a + b) + c, "a+(b+c)": lambda: a + (b + c), "(a+b)+(c+d)": lambda: (a + b) + (c + d),
+          "a+((b+c)+d)": lambda: a + ((b + c) + d)}[grouping]()
+    used = terms if "d" in grouping else terms[:3]
+    x = B.reals("x", (N,))
+    dx = B.reals("dx", (N,))
+    xf = ift.MultiField.from_dict({"a": field_of(da, x)})
+    dxf = ift.MultiField.from_dict({"a": field_of(da, dx)})
+    lin = lh(ift.Linearization.make_var(xf, want_metric=True))
+    parts = [t(ift.Linearization.make_var(xf, want_metric=True)) for t in used]
+    B.is_true("domain of the sum", lh.domain is used[0].domain)
+    B.eq(f"{grouping}: value == sum of the terms", flat_of(lin.val), [sum((flat_of(p.val)[0] for p in parts), 0)])
+    B.eq(f"{grouping}: Jacobian == sum of the terms", flat_of(lin.jac(dxf)), [sum((flat_of(p.jac(dxf))[0] for p in parts), 0)])
+    mets = [flat_of(p.metric(dxf)) for p in parts]
+    B.eq(f"{grouping}: metric == sum of the terms", flat_of(lin.metric(dxf)), [sum((m[i] for m in mets), 0) for i in range(N)])
+
+
 def h_cgauss(B, model, icov):
     """complex Gaussian likelihood behind a complex linear model: the metric is the
     Hermitian pull-back J^H N^-1 J (|f|^2 N^-1 for a scaling), not J^T N^-1 J"""
@@ -421,10 +446,12 @@ def scenarios(tier, seed):
             for w in wk:
                 out.append(("energy", {"name": name, "cfg": cfg, "wkind": w}))
     out.append(("sum", {"cfg": {}}))
+    for grp in ("(a+b)+c", "a+(b+c)", "(a+b)+(c+d)", "a+((b+c)+d)"):
+        out.append(("nested", {"grouping": grp}))
     return out
 
 
-HARNESSES = {"energy": h_energy, "sum": h_sum, "cgauss": h_cgauss}
+HARNESSES = {"energy": h_energy, "sum": h_sum, "nested": h_nested, "cgauss": h_cgauss}
 OPTS = {"quick": {"max_paths": 64}, "thorough": {"max_paths": 128}}
 
 META = {
